@@ -9,6 +9,7 @@ import (
 )
 
 func init() {
+	families["fault_dv_partial"] = genFaultDvPartial
 	families["conc_write"] = genConcWrite
 	families["fault_transient"] = genFaultTransient
 	families["fault_then_merge"] = genFaultThenMerge
@@ -623,6 +624,57 @@ func genConcWrite(r *rand.Rand, i int) Scenario {
 	sc.Ops = append(sc.Ops, Op{Op: "load", File: 13, Seg: 50, Backing: "mem"}, Op{Op: "observe", Seg: 50, Level: "light"})
 	for _, h := range []int{21, 22, 23, 24} {
 		sc.Ops = append(sc.Ops, Op{Op: "observe", Seg: h, Level: "light"})
+	}
+	return sc
+}
+
+// fault_dv_partial: a doc-value reader that has chunk 0 loaded starts loading chunk 1 and the storage fails after
+// N more reads - N enumerated over every read of the load (count, header entries, data); then every document of
+// chunk 0 is visited again: right values, nothing or an error - never a panic, never another document's terms (C19)
+func genFaultDvPartial(r *rand.Rand, i int) Scenario {
+	n := 1024 + 6 + i%3
+	k0 := 5 + (i/16)%4 // documents with values in chunk 0
+	nreads := i % 16
+	if (i/256)%2 == 1 {
+		// a much larger chunk 0: its offsets lie beyond the end of chunk 1's data
+		k0 = 40
+		nreads = 2 * (i % 45)
+	}
+	b := make(Batch, n)
+	for d := 0; d < n; d++ {
+		b[d] = Doc{}
+		if d < k0 || d >= 1024 {
+			terms := []TermOcc{{Term: B([]byte(fmt.Sprintf("v%04d", d))), Freq: 1, Locs: []Loc{}}}
+			if d%2 == 1 {
+				terms = append(terms, TermOcc{Term: B([]byte(fmt.Sprintf("w%d", d))), Freq: 1, Locs: []Loc{}})
+			}
+			b[d] = Doc{{Name: "f", Len: len(terms), DV: true, Value: Bytes{}, Terms: terms}}
+		}
+	}
+	sc := Scenario{Name: fmt.Sprintf("fault_dv_partial-%d", i), NormKind: "code", Universe: []string{"_id", "f"}, Batches: []Batch{b}, Tags: []string{"fault_dv_partial"}}
+	sc.Ops = append(sc.Ops, Op{Op: "watchdog", Watchdog: 3000}, Op{Op: "build", Seg: 1, Batch: 0, Mode: 0},
+		Op{Op: "persist", Seg: 1, File: 1}, Op{Op: "load", File: 1, Seg: 2, Backing: "file"},
+		Op{Op: "dv_open", Seg: 2, R: 1, Fields: []string{"f"}})
+	op := "fail_after"
+	if (i/64)%2 == 1 {
+		op = "fail_once"
+	}
+	if (i/128)%2 == 0 {
+		// chunk 0 loaded, chunk 1 fails half-way, chunk 0 again
+		sc.Ops = append(sc.Ops, Op{Op: "dv_visit", R: 1, N: 0}, Op{Op: "dv_visit", R: 1, N: 1},
+			Op{Op: op, Seg: 2, N: nreads}, Op{Op: "dv_visit", R: 1, N: 1024})
+		for d := 0; d < k0; d++ {
+			sc.Ops = append(sc.Ops, Op{Op: "dv_visit", R: 1, N: d})
+		}
+		sc.Ops = append(sc.Ops, Op{Op: "dv_visit", R: 1, N: 1025}, Op{Op: "dv_visit", R: 1, N: 2})
+	} else {
+		// the other way round: chunk 1 loaded, chunk 0 (smaller document numbers) fails half-way, chunk 1 again
+		sc.Ops = append(sc.Ops, Op{Op: "dv_visit", R: 1, N: 1024}, Op{Op: "dv_visit", R: 1, N: 1025},
+			Op{Op: op, Seg: 2, N: nreads}, Op{Op: "dv_visit", R: 1, N: 0})
+		for d := 1024; d < n; d++ {
+			sc.Ops = append(sc.Ops, Op{Op: "dv_visit", R: 1, N: d})
+		}
+		sc.Ops = append(sc.Ops, Op{Op: "dv_visit", R: 1, N: 1}, Op{Op: "dv_visit", R: 1, N: 1026})
 	}
 	return sc
 }
